@@ -183,7 +183,8 @@ PROPS = {
             'write_end_of_scalar: a staged inline comment is written only outside flow context, as ` # ` + text + newline, and is consumed',
             'the statement that stages a Commented comment (lifted from TupleSer::serialize_field): the staged text contains neither \\n nor \\r',
         ],
-        not_covered=['every other wrapper and option (flow sequences / mappings, literal / folded strings, space-after, option vectors): needs the emitter state machine and a YAML reader semantics (as C13)'],
+        not_covered=['every other wrapper and option (flow sequences / mappings, literal / folded strings, space-after, option vectors): needs the emitter state machine and a YAML reader semantics (as C13)',
+                     'observed, NOT detected by any contract here and not repaired: indent_step other than 2 mis-indents a mapping that starts inside a nested block sequence (`- - key:`), so the option changes data (findings/obs_indent_step_nested_sequences.rs)'],
         assumptions=['String::replace shim (contracts/quoting.shim.rs)'],
     ),
     'C08': dict(covered=['budget counters bound the number of observed events/nodes (BudgetEnforcer::observe accept_only_within_limits)'],
